@@ -7,6 +7,9 @@ pub mod c16;
 pub mod c17;
 pub mod c18;
 pub mod c19;
+pub mod c20;
+pub mod c21;
+pub mod c22;
 
 pub struct Entry {
     pub run: fn(&Ctx, &mut Report),
@@ -31,6 +34,10 @@ pub fn lookup(id: &str) -> Option<Entry> {
         "C17" => e!(c17),
         "C18" => e!(c18),
         "C19" => e!(c19),
+        "C20" => e!(c20),
+        "C06" => e!(c20),
+        "C21" => e!(c21),
+        "C22" => e!(c22),
         _ => None,
     }
 }
